@@ -21,18 +21,18 @@ B = os.path.join(ROOT, "build")
 
 # runs per (variant) and tier; measured throughput is recorded in the evidence
 CFG = {
-    #        quick                                   thorough
-    "C03": ({"plain": 60000, "asan": 6000},          {"plain": 3000000, "asan": 300000}),
-    "C05": ({"plain": 20000, "asan": 3000},          {"plain": 1000000, "asan": 100000}),
-    "C07": ({"plain": 8000, "asan": 800},            {"plain": 400000, "asan": 20000}),
-    "C08": ({"plain": 20000, "asan": 3000},          {"plain": 1000000, "asan": 100000}),
-    "C09": ({"plain": 40000, "asan": 5000},          {"plain": 2000000, "asan": 200000}),
-    "C10": ({"plain": 40000, "asan": 5000},          {"plain": 2000000, "asan": 200000}),
-    "C11": ({"plain": 60000, "asan": 6000},          {"plain": 3000000, "asan": 300000}),
-    "C12": ({"plain": 20000, "tsan": 3000, "asan": 2000}, {"plain": 1000000, "tsan": 200000, "asan": 100000}),
-    "C15": ({"plain": 20000, "asan": 6000},          {"plain": 1000000, "asan": 300000}),
-    "C16": ({"plain": 40000, "asan": 4000},          {"plain": 2000000, "asan": 200000}),
-    "C19": ({"plain": 8000, "asan": 800},            {"plain": 400000, "asan": 20000}),
+    #        quick                                        thorough
+    "C03": ({"plain": 300000, "asan": 30000},             {"plain": 12000000, "asan": 1000000}),
+    "C05": ({"plain": 60000, "asan": 8000},               {"plain": 2500000, "asan": 250000}),
+    "C07": ({"plain": 20000, "asan": 2000},               {"plain": 800000, "asan": 60000}),
+    "C08": ({"plain": 100000, "asan": 10000},             {"plain": 4000000, "asan": 300000}),
+    "C09": ({"plain": 300000, "asan": 30000},             {"plain": 10000000, "asan": 1000000}),
+    "C10": ({"plain": 200000, "asan": 20000},             {"plain": 8000000, "asan": 600000}),
+    "C11": ({"plain": 400000, "asan": 40000},             {"plain": 15000000, "asan": 1200000}),
+    "C12": ({"plain": 100000, "tsan": 6000, "asan": 8000}, {"plain": 4000000, "tsan": 250000, "asan": 300000}),
+    "C15": ({"plain": 60000, "asan": 15000},              {"plain": 2500000, "asan": 500000}),
+    "C16": ({"plain": 300000, "asan": 30000},             {"plain": 10000000, "asan": 1000000}),
+    "C19": ({"plain": 20000, "asan": 2000},               {"plain": 800000, "asan": 60000}),
 }
 
 REAL_VS_STUB = {
@@ -42,6 +42,13 @@ REAL_VS_STUB = {
                   "user time map / spatial map -> SimTimeMap / SimSpatialMap (yield points, liveness canaries)", "user cost functors -> generated smooth programs with recording and gradient-fault injection",
                   "pthread_mutex_lock/unlock/trylock -> cooperative mutex via -Wl,--wrap"],
     "not_exercised": ["OpenMPExecutor with a real OpenMP runtime", "builds with -ffast-math/-march=native", "allocation failure (Eigen frees before allocating: post-fault state undefined)"],
+}
+
+EXHAUSTIVE_PARTS = {
+    "C12": {"thorough": "the first 153*400 runs of every variant enumerate all N! orders in which one thread can process the segments for N = 1..5 (153 permutations), each permutation on ~400 different random problems/configurations spread over the order/dimension/map universes (counter probes_hit.enumerated_permutation)"},
+    "C09": {"thorough": "the first 2*256*6 runs of every variant enumerate all 256 flag sets x N = 1..6, once reached from a fresh optimizer and once by reconfiguring from a random other configuration; order, dimension and map universe are drawn per run, so each (flags, N) pair is seen in about one universe per pass"},
+    "C07": {"thorough": "the first 4096 runs of every variant step through all 256 flag sets (16 passes)"},
+    "C16": {"thorough": "the first 64*22 runs of every variant start with each of the 22 input-fault kinds (64 passes, random field positions)"},
 }
 
 ASSUMPTIONS = [
@@ -244,6 +251,7 @@ def main():
                     "executor schedule; counted per variant and summed (the variants execute the same seeds, so the per-variant numbers are listed too).",
             "samples": (summaries.get("plain") or next(iter(summaries.values()), {})).get("samples", ["none"])[:6] or ["none"],
             "exhaustive": False,
+            "exhaustive_parts": EXHAUSTIVE_PARTS.get(prop, {}).get(tier, "none in this tier"),
             "per_variant": {v: {"runs": s["runs"], "wall_s": round(s["wall_s"], 2), "distinct_event_logs": s["distinct_digests"], "distinct_nontrivial": s["distinct_nontrivial"],
                                 "distinct_states": s["distinct_states"], "distinct_schedules": s["distinct_schedules"],
                                 "distinct_interleaved_schedules": s["distinct_interleaved_schedules"], "scheduler_steps": s["steps"], "fiber_switches": s["switches"],
